@@ -25,7 +25,7 @@ use crate::{
         onehop::layout::OneHopPathLayout,
         standard::{
             mac::{ForwardingKey, HopMacCalculate, algo::mac_beta_step},
-            types::{InfoFieldFlags, exp_time_to_duration},
+            types::{HopFieldFlags, InfoFieldFlags, exp_time_to_duration},
             view::{HopFieldView, InfoFieldView},
         },
         types::PathReverseError,
@@ -118,10 +118,11 @@ impl OneHopPathView {
         };
 
         let [hop1, hop2] = self.mut_hop_fields();
-        hop2.set_cons_ingress(ingress_interface);
+        // The second hop field is built from scratch (like `OneHopPath::set_second_hop`): no flags
+        // survive from whatever occupied the placeholder.
+        hop2.set_flags(HopFieldFlags::empty());
         hop2.set_cons_ingress(ingress_interface);
         hop2.set_cons_egress(0);
-        hop2.set_cons_ingress(ingress_interface);
         hop2.set_exp_time(hop1.exp_time());
 
         let mac = hop2.calculate_mac(beta, timestamp, &forwarding_key);
